@@ -87,8 +87,6 @@ func VerifC23Lines() {
 		crlf = crlf || (len(w) > 0 && w[len(w)-1] == '\r')
 	}
 	zzverif.Known("C23-lines-newline-strips-cr", sep == "\n" && crlf)
-	// known: the custom split function advances by 1 byte, not by len(sep)
-	zzverif.Known("C23-lines-multibyte-separator", len(sep) > 1 && verifContains(content, sep))
 	zzverif.Assert(len(sink.rows) == len(want), "one-record-per-piece")
 	for i := range want {
 		row := sink.rows[i]
